@@ -12,34 +12,56 @@ var all21 = []string{
 	"rbt", "avl", "btree", "binaryheap",
 }
 
-// makeSys builds the system of container kind c with int elements.
+// makeSys builds the system of container kind c.
 //   n    live bound          u    universe size     cmp/vcmp comparator names
 //   cap  ring capacity       m    B-tree order      rank=1 rank-abstract keys (trees)
+//   elem "int" (default) | "str": element / key / value type
 func makeSys(c string, j Job) Sys {
 	n, u := j.p("n", 4), j.p("u", 3)
 	cmpN := j.s("cmp", "nat")
+	str := j.s("elem", "int") == "str"
+	hc := "min"
+	if cmpN == "rev" {
+		hc = "max"
+	}
 	switch c {
 	case "arraylist", "singlylinkedlist", "doublylinkedlist":
+		if str {
+			return &ListSys[string]{Kind: c, U: strUniverse(u), Absent: "zz", Poison: "POISON", N: n,
+				Cmps: map[string]func(a, b string) int{"nat": strCmp("nat"), "rev": strCmp("rev"), "coarse": strCmp("coarse")}}
+		}
 		return intListSys(c, n, u)
-	case "hashset", "linkedhashset":
-		return intSetSys(c, cmpN, u)
-	case "treeset":
-		if j.p("rank", 0) == 1 {
+	case "hashset", "linkedhashset", "treeset":
+		if c == "treeset" && j.p("rank", 0) == 1 {
 			jj := j
 			jj.S = map[string]string{"c": c, "cmp": cmpN}
 			return kvSysFromJob(jj)
 		}
+		if str {
+			return &SetSys[string]{Kind: c, CmpN: cmpN, U: strUniverse(u), Absent: "zz", Poison: "POISON", Cmp: strCmp(cmpN), Tuples: defaultSetTuples(u)}
+		}
 		return intSetSys(c, cmpN, u)
 	case "arraystack", "linkedliststack", "arrayqueue", "linkedlistqueue", "circularbuffer":
-		s := &SeqSys[int]{Kind: c, Cap: j.p("cap", 3), N: n, Poison: -99, U: intRange(1, u)}
-		return s
+		if str {
+			return &SeqSys[string]{Kind: c, Cap: j.p("cap", 3), N: n, Poison: "POISON", U: strUniverse(u)}
+		}
+		return &SeqSys[int]{Kind: c, Cap: j.p("cap", 3), N: n, Poison: -99, U: intRange(1, u)}
 	case "priorityqueue", "binaryheap":
-		hc := "min"
-		if cmpN == "rev" {
-			hc = "max"
+		if str {
+			return scalarHeapSys[string](c, hc, n, strUniverse(u), "POISON", j.p("jsonlen", 2))
+		}
+		if j.s("elem", "") == "int" {
+			return scalarHeapSys[int](c, hc, n, intRange(1, u), -99, j.p("jsonlen", 2))
 		}
 		return heSys(c, hc, n, j.p("pmax", 2), j.p("jsonlen", 2))
 	case "hashmap", "treemap", "linkedhashmap", "hashbidimap", "treebidimap", "rbt", "avl", "btree":
+		if str {
+			ku := strUniverse(u)
+			// values drawn from the key alphabet ("values that contain text equal to keys")
+			return &KVSys[string, string]{Kind: c, Order: j.p("m", 3), CmpN: cmpN, VCmpN: j.s("vcmp", "nat"), N: j.p("n", u), KU: ku, VU: strUniverse(j.p("vu", u)),
+				KCmp: strCmp(cmpN), VCmp: strCmp(j.s("vcmp", "nat")), PropsL: kvProps,
+				Probes: func(live []string) []string { return []string{"", "zz"} }}
+		}
 		jj := j
 		jj.S = map[string]string{"c": c, "cmp": cmpN, "vcmp": j.s("vcmp", "nat")}
 		return kvSysFromJob(jj)
